@@ -295,30 +295,44 @@ impl Sut {
         Ok(())
     }
 
-    /// Wait until no flush request is queued and no worker is handling one (observed
-    /// twice, 300 us apart, with unchanged counters). False on timeout.
+    /// Wait until no flush request is queued and no worker is handling one. Exact: a
+    /// worker counts as busy from the moment it has *seen* a queued request (before it
+    /// takes it) until it reports completion. False on timeout.
     pub fn quiesce(&self, timeout_ms: u64) -> bool {
         let start = std::time::Instant::now();
-        let snap = |s: &Sut| {
-            (
-                s.sess.worker_begin.load(Ordering::SeqCst),
-                s.sess.worker_done.load(Ordering::SeqCst),
-                s.store().verif_requests_queued(),
-            )
-        };
         loop {
-            let a = snap(self);
-            if a.0 == a.1 && a.2 == 0 {
-                std::thread::sleep(std::time::Duration::from_micros(300));
-                if snap(self) == a {
-                    return true;
-                }
+            // order matters: queued first, then busy (a request moves from queued to busy, never back)
+            let queued = self.store().verif_requests_queued();
+            let busy = self.sess.busy_workers.load(Ordering::SeqCst);
+            if queued == 0 && busy <= 0 && self.store().verif_requests_queued() == 0 {
+                return true;
             }
             if start.elapsed().as_millis() as u64 > timeout_ms {
                 return false;
             }
-            std::thread::sleep(std::time::Duration::from_micros(100));
+            std::thread::sleep(std::time::Duration::from_micros(50));
         }
+    }
+
+    /// Grant the periodic coordinator exactly one round and wait until the round and
+    /// all the work it requested have completed.
+    pub fn coordinator_round(&self, timeout_ms: u64) -> Result<(), String> {
+        if !self.quiesce(timeout_ms) {
+            return Err("the flush workers did not become idle".into());
+        }
+        let r0 = self.sess.coordinator_rounds.load(Ordering::SeqCst);
+        self.sess.tick_grants.store(1, Ordering::SeqCst);
+        let start = std::time::Instant::now();
+        while self.sess.coordinator_rounds.load(Ordering::SeqCst) == r0 {
+            if start.elapsed().as_millis() as u64 > timeout_ms {
+                return Err("the coordinator did not complete its round".into());
+            }
+            std::thread::sleep(std::time::Duration::from_micros(50));
+        }
+        if !self.quiesce(timeout_ms) {
+            return Err("the flush workers did not finish the coordinator's requests".into());
+        }
+        Ok(())
     }
 
     pub fn now(&self) -> u64 {
@@ -366,25 +380,9 @@ impl Sut {
             }
             Op::Tick => {
                 if self.cfg.persistent {
-                    // Which workers will be asked to flush by this tick?
-                    let d = self.store().verif_dump();
-                    let workers = self.cfg.workers.max(1);
-                    let mut asked: Vec<usize> = d.buffered.iter().map(|b| b.shard % workers).collect();
-                    if !d.retirements.is_empty() {
-                        asked.push(0);
-                    }
-                    asked.sort();
-                    asked.dedup();
-                    let done0 = self.sess.worker_done.load(Ordering::SeqCst);
-                    self.sess.tick_grants.store(1, Ordering::SeqCst);
-                    let start = std::time::Instant::now();
-                    while self.sess.tick_grants.load(Ordering::SeqCst) != 0
-                        || self.sess.worker_done.load(Ordering::SeqCst) < done0 + asked.len() as u64
-                    {
-                        if start.elapsed().as_secs() > 10 {
-                            return Out::err("TickNotCompleted");
-                        }
-                        std::thread::sleep(std::time::Duration::from_micros(100));
+                    if let Err(e) = self.coordinator_round(10_000) {
+                        let _ = e;
+                        return Out::err("TickNotCompleted");
                     }
                 }
                 return Out::Unit;
